@@ -93,8 +93,10 @@ theorem wrap_not_discarded {n : Nat} (hn : 0 < n) (hn' : n ≤ 256) (pk : List B
   have hms : maxShardSets = 3 := rfl
   have hnot : ¬ (itimediff 0 (pawsOf n - u32 n) > ((maxShardSets * n : Nat) : Int)) := by
     rw [hms]; omega
-  simp only [KcpVerif.Fec.discard, List.filter_cons, List.filter_nil, h0, hk, hnot, decide_false, Bool.not_false,
-    if_true, List.length_cons, List.length_nil]
+  have hpos := (wrap_gap hn hn').1
+  have hneg : ¬ (itimediff 0 (pawsOf n - u32 n) < 0) := by omega
+  simp only [KcpVerif.Fec.discard, List.filter_cons, List.filter_nil, h0, hk, hnot, hneg, decide_false,
+    Bool.or_self, Bool.not_false, if_true, List.length_cons, List.length_nil]
 
 /-- the gap at the wrap is inside the discard horizon `maxShardSets * n` -/
 theorem wrap_within_horizon {n : Nat} (hn : 0 < n) (hn' : n ≤ 256) :
